@@ -64,3 +64,16 @@ extern "C" __attribute__((noinline)) int u_mkseg(const KEY *d, size_t n, size_t 
     } catch (const std::invalid_argument &) { return 1; }
       catch (const std::logic_error &) { return 2; }
 }
+
+// One chunk of the chunked builder: the real make_segmentation(n, start, end, ...) on the sub-range [start, end) of d[0..n).
+extern "C" __attribute__((noinline)) int u_mkseg_range(const KEY *d, size_t n, size_t start, size_t end, size_t eps, size_t *count, size_t *emitted, int64_t *segs) {
+    try {
+        size_t e = 0;
+        auto in = [d](size_t i) { return d[i]; };
+        auto out = [&e, segs](const CS &cs) { if (e < MAXSEG) dump(cs, segs + 10 * e); ++e; };
+        *count = pgm::internal::make_segmentation(n, start, end, eps, in, out);
+        *emitted = e;
+        return 0;
+    } catch (const std::invalid_argument &) { return 1; }
+      catch (const std::logic_error &) { return 2; }
+}
